@@ -143,26 +143,126 @@ theorem exists_fuel (db : Db) (V : List Entry) :
       | inl h => subst h; exact absurd ⟨T', hT'⟩ hex
       | inr h => exact hK e' h T' hT'
 
+/-! ### scopes -/
+
+theorem takeWhile_prefix (pre post : List CTE) (c : CTE) (h : c.1 ∉ names pre) :
+    (pre ++ c :: post).takeWhile (fun x => decide (x.1 ≠ c.1)) = pre := by
+  induction pre with
+  | nil => simp
+  | cons x xs ih =>
+    simp only [names, List.map_cons, List.mem_cons, not_or] at h
+    have hx : decide (x.1 ≠ c.1) = true := by simpa using fun e => h.1 e.symm
+    simp only [List.cons_append, List.takeWhile, hx]
+    congr 1
+    exact ih (by simpa [names] using h.2)
+
+/-- with pairwise distinct CTE names, the scope of a CTE is the list of names before it -/
+theorem scopeBefore_prefix (pre post : List CTE) (c : CTE) (h : c.1 ∉ names pre) :
+    scopeBefore (pre ++ c :: post) c.1 = names pre := by
+  unfold scopeBefore
+  rw [takeWhile_prefix pre post c h]
+
+theorem takeWhile_sub (l : List CTE) (p : CTE → Bool) : ∀ x ∈ l.takeWhile p, x ∈ l := by
+  induction l with
+  | nil => simp
+  | cons y ys ih =>
+    intro x hx
+    simp only [List.takeWhile] at hx
+    split at hx
+    · cases List.mem_cons.1 hx with
+      | inl h => simp [h]
+      | inr h => exact List.mem_cons_of_mem _ (ih x h)
+    · simp at hx
+
+theorem scopeBefore_sub (ctes : List CTE) (n : Name) : ∀ m ∈ scopeBefore ctes n, m ∈ names ctes := by
+  intro m hm
+  unfold scopeBefore names at hm
+  obtain ⟨x, hx, rfl⟩ := List.mem_map.1 hm
+  exact List.mem_map.2 ⟨x, takeWhile_sub _ _ x hx, rfl⟩
+
+/-- a fuel that works for every reference of a list at once -/
+theorem uniform_fuel (R : Nat → Name → Option Table)
+    (hmono : ∀ f f', f ≤ f' → ∀ n T, R f n = some T → R f' n = some T)
+    (env : Name → Option Table) (ρ : Name → Name) (refs : List Name)
+    (h : ∀ m ∈ refs, ∀ T, env m = some T → ∃ f, R f (ρ m) = some T) :
+    ∃ F, ∀ m ∈ refs, ∀ T, env m = some T → R F (ρ m) = some T := by
+  induction refs with
+  | nil => exact ⟨0, by simp⟩
+  | cons m rest ih =>
+    obtain ⟨F, hF⟩ := ih (fun m' hm' => h m' (by simp [hm']))
+    cases hm : env m with
+    | none =>
+      refine ⟨F, ?_⟩
+      intro m' hm' T hT
+      cases List.mem_cons.1 hm' with
+      | inl e => subst e; rw [hm] at hT; cases hT
+      | inr e => exact hF m' e T hT
+    | some T₀ =>
+      obtain ⟨f, hf⟩ := h m (by simp) T₀ hm
+      refine ⟨max F f, ?_⟩
+      intro m' hm' T hT
+      cases List.mem_cons.1 hm' with
+      | inl e =>
+        subst e
+        rw [hm] at hT; cases hT
+        exact hmono f _ (Nat.le_max_right _ _) _ _ hf
+      | inr e => exact hmono F _ (Nat.le_max_left _ _) _ _ (hF m' e T hT)
+
+/-- a body whose references are simulated one by one is simulated as a whole -/
+theorem body_sim (db : Db) (C : List CTE) (env : Name → Option Table) (ρ : Name → Name) (b : Body)
+    (h : ∀ m ∈ b.refs, ∀ T, (∃ f, resolveFuel db C f (ρ m) = some T) ↔ env m = some T) (T : Table) :
+    (∃ f, evalBody (resolveFuel db C f) (b.rename ρ) = some T) ↔ evalBody env b = some T := by
+  constructor
+  · rintro ⟨f, hf⟩
+    have hcongr := evalBody_congr (fun m => resolveFuel db C f (ρ m)) (resolveFuel db C f) ρ b (fun _ _ => rfl)
+    rw [← hcongr] at hf
+    exact evalBody_mono_id _ _ b (fun m hm T' h' => (h m hm T').1 ⟨f, h'⟩) T hf
+  · intro hb
+    obtain ⟨F, hF⟩ := uniform_fuel (resolveFuel db C) (fun f f' hle n T' => resolveFuel_mono db C f f' hle n T')
+      env ρ b.refs (fun m hm T' h' => (h m hm T').2 h')
+    exact ⟨F, evalBody_mono env (resolveFuel db C F) ρ b hF T hb⟩
+
 section
 variable (cfg : SpliceCfg) (norm : Name → Name) (reg : Registry) (q : Query)
 variable (ha : cfg.append = .ifAbsent) (ht : cfg.target = .last) (hp : cfg.pos = .append)
 variable (hS : noShadow cfg norm reg q = true) (hC : noClash cfg norm reg q = true)
-variable (hV : viewsClosed cfg norm reg q = true) (hF : schemaFresh cfg norm reg q = true)
+variable (hV : viewsClosed cfg norm reg q = true) (hN : noCapture cfg norm reg q = true)
+variable (hF : schemaFresh cfg norm reg q = true)
 variable (hO : starsOrdered q = true)
+variable (hD : ctesNodup q = true) (hL : lexicalRefs cfg norm reg q = true)
 
 local notation "U" => names q.ctes
-local notation "ρ" => spliceRho cfg norm reg (names q.ctes)
+local notation "ρ" => spliceRho cfg norm reg
 local notation "V" => visited cfg norm reg q
 local notation "UC" => stmtCols norm reg q.ctes (q.ctes.length + 1)
 
-theorem visited_mem (n : Name) (hn : n ∈ q.refs) (e : Entry) (h : viewOf cfg norm reg U n = some e) : e ∈ V := by
-  unfold visited
-  rw [List.mem_filterMap]
-  exact ⟨n, hn, h⟩
+theorem visited_mem_final (n : Name) (hn : n ∈ q.final.refs) (e : Entry) (h : viewOf cfg norm reg U n = some e) : e ∈ V := by
+  unfold visited viewRefs
+  rw [List.mem_append, List.mem_filterMap]
+  exact Or.inl ⟨n, hn, h⟩
+
+theorem visited_mem_cte (c : CTE) (hc : c ∈ q.ctes) (n : Name) (hn : n ∈ c.2.refs) (e : Entry)
+    (h : viewOf cfg norm reg (scopeBefore q.ctes c.1) n = some e) : e ∈ V := by
+  unfold visited viewRefs
+  rw [List.mem_append, List.mem_flatMap]
+  exact Or.inr ⟨c, hc, List.mem_filterMap.2 ⟨n, hn, h⟩⟩
+
+/-- every visited entry is a registry entry -/
+theorem visited_registered (e : Entry) (he : e ∈ V) : ∃ k, assoc reg k = some e := by
+  unfold visited viewRefs at he
+  rw [List.mem_append] at he
+  cases he with
+  | inl h =>
+    obtain ⟨n, _, hv⟩ := List.mem_filterMap.1 h
+    exact ⟨_, viewOf_some _ _ _ _ _ _ hv⟩
+  | inr h =>
+    obtain ⟨c, _, hc⟩ := List.mem_flatMap.1 h
+    obtain ⟨n, _, hv⟩ := List.mem_filterMap.1 hc
+    exact ⟨_, viewOf_some _ _ _ _ _ _ hv⟩
 
 include hS in
-/-- a CTE of the statement is never treated as a view reference -/
-theorem user_not_view (n : Name) (hn : n ∈ U) : viewOf cfg norm reg U n = none := by
+/-- a CTE of the statement that is in scope is never treated as a view reference -/
+theorem user_not_view (S : List Name) (hSU : ∀ n ∈ S, n ∈ U) (n : Name) (hn : n ∈ S) : viewOf cfg norm reg S n = none := by
   unfold viewOf
   unfold noShadow at hS
   rw [Bool.or_eq_true] at hS
@@ -170,48 +270,49 @@ theorem user_not_view (n : Name) (hn : n ∈ U) : viewOf cfg norm reg U n = none
   | inl h => simp [h, hn]
   | inr h =>
     rw [List.all_eq_true] at h
-    have := h n hn
+    have := h n (hSU n hn)
     split
     · rfl
     · simpa using this
 
 include hS in
-theorem rho_user (n : Name) (hn : n ∈ U) : ρ n = n := by
+theorem rho_user (S : List Name) (hSU : ∀ n ∈ S, n ∈ U) (n : Name) (hn : n ∈ S) : ρ S n = n := by
   unfold spliceRho
-  rw [user_not_view cfg norm reg q hS n hn]
+  rw [user_not_view cfg norm reg q hS S hSU n hn]
 
 include hF in
-theorem fresh_of_ref (n : Name) (hn : n ∈ q.refs) (e : Entry) (h : viewOf cfg norm reg U n = some e) : e.stale = false := by
+theorem fresh_of_visited (e : Entry) (he : e ∈ V) : e.stale = false := by
   unfold schemaFresh at hF
   rw [List.all_eq_true] at hF
-  have := hF e (visited_mem cfg norm reg q n hn e h)
-  simpa using this
+  simpa using hF e he
 
 include hS in
-/-- a reference that is treated as a view reference is not a CTE of the statement -/
-theorem view_not_user (n : Name) (e : Entry) (h : viewOf cfg norm reg U n = some e) : (names q.ctes).contains n = false := by
-  cases hc : (names q.ctes).contains n with
+/-- a reference that is treated as a view reference is not a CTE in scope -/
+theorem view_not_user (S : List Name) (hSU : ∀ n ∈ S, n ∈ U) (n : Name) (e : Entry)
+    (h : viewOf cfg norm reg S n = some e) : S.contains n = false := by
+  cases hc : S.contains n with
   | false => rfl
   | true =>
-    rw [user_not_view cfg norm reg q hS n (by simpa using hc)] at h
+    rw [user_not_view cfg norm reg q hS S hSU n (by simpa using hc)] at h
     cases h
 
 include hS hF hO in
-theorem spliceBody_final : spliceBody cfg norm reg U UC q.final = q.final.rename ρ :=
+theorem spliceBody_final : spliceBody cfg norm reg U UC q.final = q.final.rename (ρ U) :=
   spliceBody_eq_rename cfg norm reg U UC q.final
-    (fun n hn e h => ⟨fresh_of_ref cfg norm reg q hF n (by unfold Query.refs; simp [hn]) e h,
-      view_not_user cfg norm reg q hS n e h⟩)
+    (fun n hn e h => ⟨fresh_of_visited cfg norm reg q hF e (visited_mem_final cfg norm reg q n hn e h),
+      view_not_user cfg norm reg q hS U (fun _ h => h) n e h⟩)
     (by unfold starsOrdered at hO; simp only [Bool.and_eq_true, Bool.not_eq_true'] at hO; exact hO.1)
 
 include hS hF hO in
-theorem spliceBody_cte (n : Name) (b : Body) (h : (n, b) ∈ q.ctes) : spliceBody cfg norm reg U UC b = b.rename ρ :=
-  spliceBody_eq_rename cfg norm reg U UC b
-    (fun m hm e he => ⟨fresh_of_ref cfg norm reg q hF m (mem_refs_of_cte q n b h m hm) e he,
-      view_not_user cfg norm reg q hS m e he⟩)
+theorem spliceBody_cte (c : CTE) (h : c ∈ q.ctes) :
+    spliceBody cfg norm reg (scopeBefore q.ctes c.1) UC c.2 = c.2.rename (ρ (scopeBefore q.ctes c.1)) :=
+  spliceBody_eq_rename cfg norm reg _ UC c.2
+    (fun m hm e he => ⟨fresh_of_visited cfg norm reg q hF e (visited_mem_cte cfg norm reg q c h m hm e he),
+      view_not_user cfg norm reg q hS _ (scopeBefore_sub q.ctes c.1) m e he⟩)
     (by
       unfold starsOrdered at hO
       simp only [Bool.and_eq_true, Bool.not_eq_true', List.all_eq_true] at hO
-      exact hO.2 (n, b) h)
+      exact hO.2 c h)
 
 /-- facts about one referenced view, unpacked from the Boolean scope hypotheses -/
 structure ViewFacts (e : Entry) : Prop where
@@ -221,13 +322,14 @@ structure ViewFacts (e : Entry) : Prop where
   refs : ∀ c ∈ e.frame.ctes, ∀ m ∈ c.2.refs,
       (m ∈ names e.frame.ctes ∨ (m ∉ U ∧ ∀ e' ∈ V, m ∉ names e'.frame.ctes))
 
-include hC hV in
+include hC hV hN in
 theorem view_facts (e : Entry) (he : e ∈ V) : ViewFacts cfg norm reg q e := by
   unfold noClash at hC
   simp only [Bool.and_eq_true] at hC
   obtain ⟨⟨h1, h2⟩, _⟩ := hC
   unfold viewsClosed at hV
-  rw [List.all_eq_true] at h1 h2 hV
+  unfold noCapture at hN
+  rw [List.all_eq_true] at h1 h2 hV hN
   have hv := hV e he
   rw [Bool.and_eq_true] at hv
   refine ⟨wrapped_of_isWrapped _ hv.1, ?_, ?_, ?_⟩
@@ -250,23 +352,36 @@ theorem view_facts (e : Entry) (he : e ∈ V) : ViewFacts cfg norm reg q e := by
     rw [List.all_eq_true] at this
     have := this m hm
     rw [Bool.or_eq_true] at this
+    have hn := hN e he
+    rw [List.all_eq_true] at hn
+    have hn := hn c hc
+    rw [List.all_eq_true] at hn
+    have hn := hn m hm
+    rw [Bool.or_eq_true] at hn
     cases this with
     | inl h => exact Or.inl (by simpa using h)
     | inr h =>
-      unfold isBaseName at h
-      rw [Bool.and_eq_true, List.all_eq_true] at h
-      exact Or.inr ⟨by simpa using h.1, fun e' he' => by simpa using h.2 e' he'⟩
+      cases hn with
+      | inl h' => exact Or.inl (by simpa using h')
+      | inr h' =>
+        unfold isBaseName at h
+        rw [List.all_eq_true] at h
+        exact Or.inr ⟨by simpa using h', fun e' he' => by simpa using h e' he'⟩
 
 include hC in
 /-- a reference that is neither a CTE of the statement nor a view is not a generated name -/
-theorem base_not_generated (n : Name) (hn : n ∈ q.refs) (hu : n ∉ U) (hv : viewOf cfg norm reg U n = none) :
+theorem base_not_generated (n : Name) (hn : n ∈ q.refs) (hu : n ∉ U) (hv : assoc reg (norm n) = none) :
     ∀ e ∈ V, n ∉ names e.frame.ctes := by
   unfold noClash at hC
   simp only [Bool.and_eq_true] at hC
   obtain ⟨_, h3⟩ := hC
   rw [List.all_eq_true] at h3
   have := h3 n hn
-  simp only [Bool.or_eq_true, hv, Option.isSome_none, Bool.false_eq_true, or_false] at this
+  have hvo : viewOf cfg norm reg U n = none := by
+    unfold viewOf; split
+    · rfl
+    · exact hv
+  simp only [Bool.or_eq_true, hvo, Option.isSome_none, Bool.false_eq_true, or_false] at this
   cases this with
   | inl h => exact absurd (by simpa using h) hu
   | inr h =>
@@ -279,9 +394,9 @@ def chainsOf : List (List CTE) := (visited cfg norm reg q).map (fun e => e.frame
 
 /-- the WITH list of the spliced statement -/
 def splicedCtes : List CTE :=
-  (spliceCtes cfg norm reg (names q.ctes) q.refs q.ctes).map
+  (addChains cfg (viewRefs cfg norm reg q) q.ctes).map
     (fun c => if (names q.ctes).contains c.1
-      then (c.1, spliceBody cfg norm reg (names q.ctes) (stmtCols norm reg q.ctes (q.ctes.length + 1)) c.2) else c)
+      then (c.1, spliceBody cfg norm reg (scopeBefore q.ctes c.1) (stmtCols norm reg q.ctes (q.ctes.length + 1)) c.2) else c)
 
 local notation "C'" => splicedCtes cfg norm reg q
 
@@ -290,21 +405,26 @@ theorem assoc_spliced (n : Name) :
     assoc C' n = (match assoc q.ctes n with
       | some b => some b
       | none => firstBind (chainsOf cfg norm reg q) n).map
-        (fun b => if (names q.ctes).contains n then spliceBody cfg norm reg U UC b else b) := by
+        (fun b => if (names q.ctes).contains n then spliceBody cfg norm reg (scopeBefore q.ctes n) UC b else b) := by
   unfold splicedCtes
-  rw [assoc_map_cond _ (fun k => (names q.ctes).contains k), spliceCtes_eq_addAll cfg norm reg U ha hp, assoc_addAll]
+  rw [assoc_map_cond_key _ (fun k => (names q.ctes).contains k)
+      (fun k b => spliceBody cfg norm reg (scopeBefore q.ctes k) UC b),
+    addChains_eq_addAll cfg ha hp, assoc_addAll]
   rfl
 
 include ha hp hS hF hO in
-theorem assoc_spliced_user (n : Name) (b : Body) (h : assoc q.ctes n = some b) : assoc C' n = some (b.rename ρ) := by
+theorem assoc_spliced_user (n : Name) (b : Body) (h : assoc q.ctes n = some b) :
+    assoc C' n = some (b.rename (ρ (scopeBefore q.ctes n))) := by
   rw [assoc_spliced cfg norm reg q ha hp, h]
   have hmem : n ∈ names q.ctes := assoc_some_mem _ n b h
-  simp [spliceBody_cte cfg norm reg q hS hF hO n b (assoc_some_pair_mem _ n b h), hmem]
+  have := spliceBody_cte cfg norm reg q hS hF hO (n, b) (assoc_some_pair_mem _ n b h)
+  simp only at this
+  simp [this, hmem]
 
-include ha hp hC hV in
+include ha hp hC hV hN in
 theorem assoc_spliced_chain (e : Entry) (he : e ∈ V) (n : Name) (b : Body) (h : assoc e.frame.ctes n = some b) :
     assoc C' n = some b := by
-  have vf := view_facts cfg norm reg q hC hV e he
+  have vf := view_facts cfg norm reg q hC hV hN e he
   have hu : assoc q.ctes n = none := (assoc_none_iff _ n).2 (vf.disjoint n (assoc_some_mem _ n b h))
   rw [assoc_spliced cfg norm reg q ha hp, hu]
   have hfb : firstBind (chainsOf cfg norm reg q) n = some b := by
@@ -312,7 +432,7 @@ theorem assoc_spliced_chain (e : Entry) (he : e ∈ V) (n : Name) (b : Body) (h 
     intro c₁ hc₁ c₂ hc₂ m b₁ b₂ h₁ h₂
     obtain ⟨e₁, he₁, rfl⟩ := List.mem_map.1 hc₁
     obtain ⟨e₂, he₂, rfl⟩ := List.mem_map.1 hc₂
-    exact (view_facts cfg norm reg q hC hV e₁ he₁).agree e₂ he₂ m b₁ b₂ h₁ h₂
+    exact (view_facts cfg norm reg q hC hV hN e₁ he₁).agree e₂ he₂ m b₁ b₂ h₁ h₂
   have hnu : n ∉ names q.ctes := vf.disjoint n (assoc_some_mem _ n b h)
   simp [hfb, hnu]
 
@@ -324,11 +444,11 @@ theorem assoc_spliced_none (n : Name) (hu : n ∉ U) (hg : ∀ e ∈ V, n ∉ na
     exact hg e he)]
   rfl
 
-include ha hp hC hV in
+include ha hp hC hV hN in
 theorem chain_closedIn (e : Entry) (he : e ∈ V) : ClosedIn e.frame.ctes C' := by
   intro n b hb
-  have vf := view_facts cfg norm reg q hC hV e he
-  refine ⟨assoc_spliced_chain cfg norm reg q ha hp hC hV e he n b hb, ?_⟩
+  have vf := view_facts cfg norm reg q hC hV hN e he
+  refine ⟨assoc_spliced_chain cfg norm reg q ha hp hC hV hN e he n b hb, ?_⟩
   intro m hm
   by_cases hmem : m ∈ names e.frame.ctes
   · exact Or.inl hmem
@@ -343,23 +463,22 @@ theorem chain_closedIn (e : Entry) (he : e ∈ V) : ClosedIn e.frame.ctes C' := 
 def ViewsWF (db : Db) : Prop :=
   ∀ e ∈ visited cfg norm reg q, ∀ l, e.frame.lastName = some l → ∀ f T, resolveFuel db e.frame.ctes f l = some T → T.WF
 
-include ha hp ht hC hV in
+include ha hp ht hC hV hN in
 /-- inside the spliced statement the replacement name of a view reference means what the view's own frame means -/
-theorem view_target (db : Db) (hW : ViewsWF cfg norm reg q db) (n : Name) (hn : n ∈ q.refs) (e : Entry)
-    (hv : viewOf cfg norm reg U n = some e) :
-    ∀ f T, resolveFuel db C' f (ρ n) = some T ↔ evalQueryFuel db e.frame.query f = some T := by
+theorem view_target (db : Db) (hW : ViewsWF cfg norm reg q db) (S : List Name) (n : Name) (e : Entry) (he : e ∈ V)
+    (hv : viewOf cfg norm reg S n = some e) :
+    ∀ f T, resolveFuel db C' f (ρ S n) = some T ↔ evalQueryFuel db e.frame.query f = some T := by
   intro f T
-  have he := visited_mem cfg norm reg q n hn e hv
-  have vf := view_facts cfg norm reg q hC hV e he
+  have vf := view_facts cfg norm reg q hC hV hN e he
   obtain ⟨l, b, hl, hleaf⟩ := vf.wrapped
   have hlast : e.frame.lastName = some l := by simp [Frame.lastName, hl]
-  have hρ : ρ n = l := by
+  have hρ : ρ S n = l := by
     unfold spliceRho
     simp [hv, viewTarget, ht, hlast]
   have hmem : l ∈ names e.frame.ctes := by
     have : (l, b) ∈ e.frame.ctes := List.mem_of_getLast? hl
     exact List.mem_map.2 ⟨(l, b), this, rfl⟩
-  have hemb := resolveFuel_embed db _ _ (chain_closedIn cfg norm reg q ha hp hC hV e he) f l (Or.inl hmem)
+  have hemb := resolveFuel_embed db _ _ (chain_closedIn cfg norm reg q ha hp hC hV hN e he) f l (Or.inl hmem)
   rw [hρ, ← hemb]
   unfold evalQueryFuel Frame.query
   simp only [hleaf, evalBody]
@@ -373,166 +492,152 @@ variable (db : Db) (vals : Name → Option Table) (hvals : ViewVals db reg vals)
 
 local notation "dbV" => withViews norm reg vals db
 
-include ha hp ht hS hC hV hF hO hvals in
-/-- original statement over the extended database ⟹ spliced statement over the plain database -/
-theorem sim_fwd (hW : ViewsWF cfg norm reg q db) (K : Nat) (hK : ∀ e ∈ V, ∀ T, Evaluates db e.frame.query T → evalQueryFuel db e.frame.query K = some T) :
-    ∀ f, ∀ n ∈ q.refs, ∀ T, resolveFuel dbV q.ctes f n = some T → resolveFuel db C' (f + K + 1) (ρ n) = some T := by
-  intro f
-  induction f with
-  | zero =>
-    intro n hn T h
-    cases hu : assoc q.ctes n with
-    | some b => simp [resolveFuel, hu] at h
-    | none =>
-      have hnu : n ∉ U := (assoc_none_iff _ n).1 hu
-      rw [resolveFuel_unbound _ _ n hu] at h
-      cases hv : viewOf cfg norm reg U n with
-      | some e =>
-        have hreg := viewOf_some cfg norm reg U n e hv
-        simp only [withViews, hreg] at h
-        have hev : Evaluates db e.frame.query T := (hvals (norm n) e hreg T).1 h
-        exact (view_target cfg norm reg q ha ht hp hC hV db hW n hn e hv _ T).2
-          (evalQueryFuel_mono db _ K _ (by omega) T (hK e (visited_mem cfg norm reg q n hn e hv) T hev))
-      | none =>
-        have hreg : assoc reg (norm n) = none := by
-          unfold viewOf at hv
-          split at hv
-          · rename_i hc; simp at hc; exact absurd hc.2 hnu
-          · exact hv
-        simp only [withViews, hreg] at h
-        have hρ : ρ n = n := by unfold spliceRho; rw [hv]
-        rw [hρ, resolveFuel_unbound _ _ n (assoc_spliced_none cfg norm reg q ha hp n hnu
-          (base_not_generated cfg norm reg q hC n hn hnu hv))]
-        exact h
-  | succ f ih =>
-    intro n hn T h
-    cases hu : assoc q.ctes n with
-    | some b =>
-      have hmemU : n ∈ U := assoc_some_mem _ n b hu
-      rw [rho_user cfg norm reg q hS n hmemU]
-      simp only [resolveFuel, hu] at h
-      have : f + 1 + K + 1 = (f + K + 1) + 1 := by omega
-      rw [this]
-      simp only [resolveFuel, assoc_spliced_user cfg norm reg q ha hp hS hF hO n b hu]
-      exact evalBody_mono _ _ _ b
-        (fun m hm T' h' => ih m (mem_refs_of_cte q n b (assoc_some_pair_mem _ n b hu) m hm) T' h') T h
-    | none =>
-      -- unbound names do not depend on the fuel: reuse the base case
-      have h0 : resolveFuel dbV q.ctes 0 n = some T := by
-        rw [resolveFuel_unbound _ _ n hu] at h ⊢; exact h
-      have hnu : n ∉ U := (assoc_none_iff _ n).1 hu
-      rw [resolveFuel_unbound _ _ n hu] at h
-      cases hv : viewOf cfg norm reg U n with
-      | some e =>
-        have hreg := viewOf_some cfg norm reg U n e hv
-        simp only [withViews, hreg] at h
-        have hev : Evaluates db e.frame.query T := (hvals (norm n) e hreg T).1 h
-        exact (view_target cfg norm reg q ha ht hp hC hV db hW n hn e hv _ T).2
-          (evalQueryFuel_mono db _ K _ (by omega) T (hK e (visited_mem cfg norm reg q n hn e hv) T hev))
-      | none =>
-        have hreg : assoc reg (norm n) = none := by
-          unfold viewOf at hv
-          split at hv
-          · rename_i hc; simp at hc; exact absurd hc.2 hnu
-          · exact hv
-        simp only [withViews, hreg] at h
-        have hρ : ρ n = n := by unfold spliceRho; rw [hv]
-        rw [hρ, resolveFuel_unbound _ _ n (assoc_spliced_none cfg norm reg q ha hp n hnu
-          (base_not_generated cfg norm reg q hC n hn hnu hv))]
-        exact h
+/-- what the simulation knows after the definitions `pre`: a name defined so far has a value in the spliced
+    statement (over the plain database) iff it has that value in Spark's environment; every other name
+    still means what it means outside the statement -/
+def Inv (pre : List CTE) (env : Db) : Prop :=
+  (∀ n ∈ names pre, ∀ T, (∃ f, resolveFuel db C' f n = some T) ↔ env n = some T) ∧
+  (∀ n, n ∉ names pre → env n = dbV n)
 
-include ha hp ht hS hC hV hF hO hvals in
-/-- spliced statement over the plain database ⟹ original statement over the extended database -/
-theorem sim_bwd (hW : ViewsWF cfg norm reg q db) :
-    ∀ f, ∀ n ∈ q.refs, ∀ T, resolveFuel db C' f (ρ n) = some T → resolveFuel dbV q.ctes f n = some T := by
-  intro f
-  induction f with
-  | zero =>
-    intro n hn T h
-    cases hu : assoc q.ctes n with
-    | some b =>
-      have hmemU : n ∈ U := assoc_some_mem _ n b hu
-      rw [rho_user cfg norm reg q hS n hmemU] at h
-      simp [resolveFuel, assoc_spliced_user cfg norm reg q ha hp hS hF hO n b hu] at h
+include ha hp ht hS hC hV hN hvals in
+/-- one reference, judged in the scope `S = names pre` -/
+theorem ref_sim (hW : ViewsWF cfg norm reg q db) (pre : List CTE) (env : Db) (hSU : ∀ n ∈ names pre, n ∈ U)
+    (hinv : Inv cfg norm reg q db vals pre env) (m : Name) (hmq : m ∈ q.refs)
+    (hvis : ∀ e, viewOf cfg norm reg (names pre) m = some e → e ∈ V)
+    (hok : m ∈ names pre ∨ m ∉ U ∨ (viewOf cfg norm reg (names pre) m).isSome = true) (T : Table) :
+    (∃ f, resolveFuel db C' f (ρ (names pre) m) = some T) ↔ env m = some T := by
+  by_cases hm : m ∈ names pre
+  · rw [rho_user cfg norm reg q hS (names pre) hSU m hm]
+    exact hinv.1 m hm T
+  · rw [hinv.2 m hm]
+    cases hv : viewOf cfg norm reg (names pre) m with
+    | some e =>
+      have he := hvis e hv
+      have hreg := viewOf_some cfg norm reg (names pre) m e hv
+      simp only [withViews, hreg]
+      constructor
+      · rintro ⟨f, hf⟩
+        exact (hvals (norm m) e hreg T).2 ⟨f, (view_target cfg norm reg q ha ht hp hC hV hN db hW (names pre) m e he hv f T).1 hf⟩
+      · intro h
+        obtain ⟨f, hf⟩ := (hvals (norm m) e hreg T).1 h
+        exact ⟨f, (view_target cfg norm reg q ha ht hp hC hV hN db hW (names pre) m e he hv f T).2 hf⟩
     | none =>
-      have hnu : n ∉ U := (assoc_none_iff _ n).1 hu
-      rw [resolveFuel_unbound _ _ n hu]
-      cases hv : viewOf cfg norm reg U n with
-      | some e =>
-        have hreg := viewOf_some cfg norm reg U n e hv
-        have h := (view_target cfg norm reg q ha ht hp hC hV db hW n hn e hv _ T).1 h
-        simp only [withViews, hreg]
-        exact (hvals (norm n) e hreg T).2 ⟨_, h⟩
-      | none =>
-        have hreg : assoc reg (norm n) = none := by
-          unfold viewOf at hv
-          split at hv
-          · rename_i hc; simp at hc; exact absurd hc.2 hnu
-          · exact hv
-        have hρ : ρ n = n := by unfold spliceRho; rw [hv]
-        rw [hρ, resolveFuel_unbound _ _ n (assoc_spliced_none cfg norm reg q ha hp n hnu
-          (base_not_generated cfg norm reg q hC n hn hnu hv))] at h
-        simp only [withViews, hreg]
-        exact h
-  | succ f ih =>
-    intro n hn T h
-    cases hu : assoc q.ctes n with
-    | some b =>
-      have hmemU : n ∈ U := assoc_some_mem _ n b hu
-      rw [rho_user cfg norm reg q hS n hmemU] at h
-      simp only [resolveFuel, assoc_spliced_user cfg norm reg q ha hp hS hF hO n b hu] at h
-      simp only [resolveFuel, hu]
-      -- read the renamed body back: evaluate `b` where every reference m means what ρ m means on the other side
-      have hcongr := evalBody_congr (fun m => resolveFuel db C' f (ρ m)) (resolveFuel db C' f) ρ b (fun _ _ => rfl)
-      rw [← hcongr] at h
-      exact evalBody_mono_id _ _ b
-        (fun m hm T' h' => ih m (mem_refs_of_cte q n b (assoc_some_pair_mem _ n b hu) m hm) T' h') T h
-    | none =>
-      have hnu : n ∉ U := (assoc_none_iff _ n).1 hu
-      rw [resolveFuel_unbound _ _ n hu]
-      cases hv : viewOf cfg norm reg U n with
-      | some e =>
-        have hreg := viewOf_some cfg norm reg U n e hv
-        have h := (view_target cfg norm reg q ha ht hp hC hV db hW n hn e hv _ T).1 h
-        simp only [withViews, hreg]
-        exact (hvals (norm n) e hreg T).2 ⟨_, h⟩
-      | none =>
-        have hreg : assoc reg (norm n) = none := by
-          unfold viewOf at hv
-          split at hv
-          · rename_i hc; simp at hc; exact absurd hc.2 hnu
-          · exact hv
-        have hρ : ρ n = n := by unfold spliceRho; rw [hv]
-        rw [hρ, resolveFuel_unbound _ _ n (assoc_spliced_none cfg norm reg q ha hp n hnu
-          (base_not_generated cfg norm reg q hC n hn hnu hv))] at h
-        simp only [withViews, hreg]
-        exact h
+      have hnu : m ∉ U := by
+        rcases hok with h | h | h
+        · exact absurd h hm
+        · exact h
+        · rw [hv] at h; cases h
+      have hreg : assoc reg (norm m) = none := by
+        unfold viewOf at hv
+        split at hv
+        · rename_i hc; simp at hc; exact absurd hc.2 hm
+        · exact hv
+      have hρ : ρ (names pre) m = m := by unfold spliceRho; rw [hv]
+      have hnone := assoc_spliced_none cfg norm reg q ha hp m hnu (base_not_generated cfg norm reg q hC m hmq hnu hreg)
+      simp only [withViews, hreg, hρ, resolveFuel_unbound _ _ m hnone]
+      constructor
+      · rintro ⟨_, h⟩; exact h
+      · intro h; exact ⟨0, h⟩
 
-include ha hp ht hS hC hV hF hO hvals in
-/-- the splice theorem for any configuration that appends absent CTEs and targets the last CTE -/
+include ha hp ht hS hC hV hN hF hO hD hL hvals in
+/-- one more definition -/
+theorem inv_step (hW : ViewsWF cfg norm reg q db) (pre post : List CTE) (c : CTE) (hq : q.ctes = pre ++ c :: post)
+    (env : Db) (hinv : Inv cfg norm reg q db vals pre env) :
+    Inv cfg norm reg q db vals (pre ++ [c]) (bindCte env c) := by
+  have hnd : (names q.ctes).Nodup := by unfold ctesNodup at hD; simpa using hD
+  have hcq : c ∈ q.ctes := by rw [hq]; simp
+  have hcpre : c.1 ∉ names pre := by
+    rw [hq] at hnd
+    simp only [names, List.map_append, List.map_cons] at hnd
+    have := (List.nodup_append.1 hnd).2.2
+    intro hmem
+    exact this c.1 hmem c.1 (by simp) rfl
+  have hscope : scopeBefore q.ctes c.1 = names pre := by rw [hq]; exact scopeBefore_prefix pre post c hcpre
+  have hSU : ∀ n ∈ names pre, n ∈ U := by
+    intro n hn; rw [hq]; simp only [names, List.map_append, List.mem_append]; exact Or.inl hn
+  have hassoc : assoc q.ctes c.1 = some c.2 := by
+    rw [hq, assoc_append, (assoc_none_iff _ _).2 hcpre]; simp [assoc]
+  have hC' : assoc C' c.1 = some (c.2.rename (ρ (names pre))) := by
+    rw [assoc_spliced_user cfg norm reg q ha hp hS hF hO c.1 c.2 hassoc, hscope]
+  have hrefs : ∀ m ∈ c.2.refs, ∀ T, (∃ f, resolveFuel db C' f (ρ (names pre) m) = some T) ↔ env m = some T := by
+    intro m hm T
+    apply ref_sim cfg norm reg q ha ht hp hS hC hV hN db vals hvals hW pre env hSU hinv m
+      (mem_refs_of_cte q c.1 c.2 hcq m hm)
+    · intro e he
+      rw [← hscope] at he
+      exact visited_mem_cte cfg norm reg q c hcq m hm e he
+    · unfold lexicalRefs at hL
+      rw [List.all_eq_true] at hL
+      have := hL c hcq
+      rw [List.all_eq_true] at this
+      have := this m hm
+      rw [hscope] at this
+      simp only [Bool.or_eq_true, List.contains_eq_mem, decide_eq_true_eq, Bool.not_eq_true', decide_eq_false_iff_not] at this
+      rcases this with (h | h) | h
+      · exact Or.inl h
+      · exact Or.inr (Or.inl h)
+      · exact Or.inr (Or.inr h)
+  constructor
+  · intro n hn T
+    simp only [names, List.map_append, List.map_cons, List.map_nil, List.mem_append, List.mem_singleton] at hn
+    by_cases hnc : n = c.1
+    · subst hnc
+      simp only [bindCte, if_true]
+      rw [← body_sim db C' env (ρ (names pre)) c.2 hrefs T]
+      constructor
+      · rintro ⟨f, hf⟩
+        cases f with
+        | zero => simp [resolveFuel, hC'] at hf
+        | succ f => simp only [resolveFuel, hC'] at hf; exact ⟨f, hf⟩
+      · rintro ⟨f, hf⟩
+        exact ⟨f + 1, by simp only [resolveFuel, hC']; exact hf⟩
+    · have hnp : n ∈ names pre := by
+        cases hn with
+        | inl h => exact h
+        | inr h => exact absurd h hnc
+      simp only [bindCte, hnc, if_false]
+      exact hinv.1 n hnp T
+  · intro n hn
+    simp only [names, List.map_append, List.map_cons, List.map_nil, List.mem_append, List.mem_singleton, not_or] at hn
+    simp only [bindCte, hn.2, if_false]
+    exact hinv.2 n hn.1
+
+include ha hp ht hS hC hV hN hF hO hD hL hvals in
+theorem inv_all (hW : ViewsWF cfg norm reg q db) : ∀ (post pre : List CTE) (env : Db), q.ctes = pre ++ post →
+    Inv cfg norm reg q db vals pre env → Inv cfg norm reg q db vals (pre ++ post) (post.foldl bindCte env) := by
+  intro post
+  induction post with
+  | nil => intro pre env _ h; simpa using h
+  | cons c post ih =>
+    intro pre env hq hinv
+    have hstep := inv_step cfg norm reg q ha ht hp hS hC hV hN hF hO hD hL db vals hvals hW pre post c hq env hinv
+    have := ih (pre ++ [c]) (bindCte env c) (by rw [hq]; simp) hstep
+    simpa using this
+
+include ha hp ht hS hC hV hN hF hO hD hL hvals in
+/-- the splice theorem for any configuration that appends absent CTEs and targets the last CTE: the statement
+    `session.sql` builds, read by name (the engine), has exactly the value the user's statement has when it is
+    read the way Spark reads it, over the database in which view names denote the registered frames' rows -/
 theorem splice_correct (hW : ViewsWF cfg norm reg q db) (T : Table) :
-    Evaluates db (spliceWith cfg norm reg q) T ↔ Evaluates dbV q T := by
-  have hq : spliceWith cfg norm reg q = ⟨C', q.final.rename ρ⟩ := by
+    Evaluates db (spliceWith cfg norm reg q) T ↔ evalLex dbV q = some T := by
+  have hq : spliceWith cfg norm reg q = ⟨C', q.final.rename (ρ U)⟩ := by
     unfold spliceWith splicedCtes
     simp only [spliceBody_final cfg norm reg q hS hF hO]
-  have hfin : ∀ m ∈ q.final.refs, m ∈ q.refs := fun m hm => by unfold Query.refs; simp [hm]
+  have hinv : Inv cfg norm reg q db vals q.ctes (lexEnv dbV q.ctes) := by
+    have := inv_all cfg norm reg q ha ht hp hS hC hV hN hF hO hD hL db vals hvals hW q.ctes [] dbV (by simp)
+      ⟨by simp [names], fun _ _ => rfl⟩
+    simpa [lexEnv] using this
   rw [hq]
-  constructor
-  · rintro ⟨f, hf⟩
-    refine ⟨f, ?_⟩
-    unfold evalQueryFuel at hf ⊢
-    simp only at hf
-    have hcongr := evalBody_congr (fun m => resolveFuel db C' f (ρ m)) (resolveFuel db C' f) ρ q.final (fun _ _ => rfl)
-    rw [← hcongr] at hf
-    exact evalBody_mono_id _ _ q.final
-      (fun m hm T' h' => sim_bwd cfg norm reg q ha ht hp hS hC hV hF hO db vals hvals hW f m (hfin m hm) T' h') T hf
-  · rintro ⟨f, hf⟩
-    obtain ⟨K, hK⟩ := exists_fuel db V
-    refine ⟨f + K + 1, ?_⟩
-    unfold evalQueryFuel at hf ⊢
-    simp only
-    exact evalBody_mono _ _ ρ q.final
-      (fun m hm T' h' => sim_fwd cfg norm reg q ha ht hp hS hC hV hF hO db vals hvals hW K hK f m (hfin m hm) T' h') T hf
+  unfold Evaluates evalQueryFuel evalLex
+  simp only
+  apply body_sim db C' (lexEnv dbV q.ctes) (ρ U) q.final
+  intro m hm T'
+  apply ref_sim cfg norm reg q ha ht hp hS hC hV hN db vals hvals hW q.ctes _ (fun _ h => h) hinv m
+    (by unfold Query.refs; simp [hm])
+  · intro e he; exact visited_mem_final cfg norm reg q m hm e he
+  · by_cases h : m ∈ U
+    · exact Or.inl h
+    · exact Or.inr (Or.inl h)
 
 end
 
